@@ -84,6 +84,21 @@ def check_schema(inp):
             for sig, msg in errs:
                 fails.append(failure("valid against cvss-v%s.json" % sver, msg,
                                      note="sort=%s minimal=%s %s" % (sort, minimal, sig)))
+    # objects also come into being through from_rh_vector(): their documents must validate as well
+    try:
+        from .. import scorecheck
+        base = scorecheck.as_floats(scorecheck.expected_scores(ver, s))[0]
+        orh = obs.classes()[ver].from_rh_vector("%.1f/%s" % (base, s))
+        doc = json.loads(json.dumps(orh.as_json()))
+        errs = errors_of(sver, doc)
+        if ver == "4":     # the two listed v4 findings apply to these documents in the same way
+            errs = [e for e in errs if not (e[0].endswith("vectorString:pattern") and doc.get("vectorString") == s)
+                    and not (e[0].endswith(":anyOf") and isinstance(doc.get("baseSeverity"), type("")) and doc["baseSeverity"] != doc["baseSeverity"].upper())]
+        for sig, msg in errs:
+            fails.append(failure("valid against cvss-v%s.json" % sver, msg, note="object built by from_rh_vector(); %s" % sig))
+    except BaseException as e:  # noqa
+        if not isinstance(e, (KeyboardInterrupt, SystemExit)):
+            fails.append(failure("from_rh_vector(<base score>/<vector>).as_json() works", "%s: %s" % (type(e).__name__, e)))
     # de-duplicate identical messages over the four option pairs
     seen, out = set(), []
     for f in fails:
